@@ -44,6 +44,7 @@ def s_consistency(ctx, shape, limited=None):
     ctx.cover("solved")
     all_rows = sysh.table_rows(df_all)
     ctx.check("every-phase-reported", cond(set(durations) <= set(all_rows)))
+    ctx.check("only-defined-phases-reported", cond(set(all_rows) - {""} <= set(durations)), info={"reported": sorted(all_rows)})
     oracle_c01(ctx, shape, info, all_rows, durations, {}, df_all, sysobj)
     for p in durations:
         try:
@@ -99,6 +100,12 @@ def instances(tier):
         "cons-src-phased": S(N("S", "Source", phases=["a"], only=()), N("G", "LinReg", "S", only=("vdrop",)), N("L", "RLoad", "G", phases=["b"]), phases=ph),
         "cons-nophaseconf": S(N("S", "Source"), N("W", "PSwitch", "S", only=("rs",)), N("L", "PLoad", "W", only=()), phases=ph),
     }
+    # configuration histories: an earlier load table / activity list / schedule that a later call replaced
+    small["cons-load-reconfigured"] = S(N("S", "Source", only=()), N("L", "PLoad", "S", phases=["a"], prior_phases=["a", "b"]),
+                                        N("L2", "ILoad", "S", phases=["b"], prior_phases=["a"], only=("iis",)), phases=ph)
+    small["cons-list-reconfigured"] = S(N("S", "Source", only=()), N("C", "Converter", "S", phases=["a"], prior_phases=["a", "b"], only=("iis",)),
+                                        N("L", "RLoad", "C", phases=["a", "b"], prior_phases=["b"], only=()), phases=ph)
+    small["cons-schedule-redefined"] = S(N("S", "Source", only=()), N("L", "PLoad", "S", phases=["a"]), phases=ph, prior_sys_phases=["a", "t", "b"])
     for sid, sh in small.items():
         out.append(Instance("C06", "c06:s_consistency", dict(shape=sh), name="S/" + sid, uf=True, cover=["solved"], weight=30))
     rich = {
